@@ -169,6 +169,19 @@ theorem C03_read_failure_reaches_setErr :
     Skeleton.current.reqLoopBlocksOnlyOnRead = true ∧ Skeleton.current.respLoopBlocksOnlyOnRead = true ∧
     Skeleton.current.seOnlyOwnLock = true := by decide
 
+/-- M2's `setErrClose` is a step of EVERY thread inside `setErr`: in the source every path through `setErr`
+    closes the pending-call table — the two branches differ only in the cause they pass (checked against
+    the regenerated skeleton). -/
+theorem C03_setErr_always_closes : Skeleton.current.seClosesOnEveryPath = true := by decide
+
+/-- M2's `callRecover c e` returns `e` as the call's error with a valid result list and enters `setErr e`.
+    In the source that is the stub's deferred function: the panic value becomes the error (itself if it is
+    one, else ErrPanickedWithNonErrorValue), `setErr` is called unconditionally, and the result list is
+    repaired for both arities — `[err]` / `[zero, err]` — so that reflect never sees a wrong count (and panics
+    in the CALLER's goroutine); likewise for the closure proxy and the handler goroutine (checked
+    against the regenerated skeleton, statement by statement). -/
+theorem C03_recover_blocks_canonical : Skeleton.current.recoverBlocksCanonical = true := by decide
+
 end Panrpc.Ep
 
 #print axioms Panrpc.Ep.C03_read_failure_reaches_setErr
@@ -185,3 +198,5 @@ end Panrpc.Ep
 #print axioms Panrpc.Ep.C03_caller_never_stuck
 #print axioms Panrpc.Ep.C03_inflight_returns
 #print axioms Panrpc.Ep.C03_every_inflight_call_returns
+#print axioms Panrpc.Ep.C03_setErr_always_closes
+#print axioms Panrpc.Ep.C03_recover_blocks_canonical
